@@ -14,24 +14,57 @@ PINS = os.path.join(V, "props", "pins.json")
 
 
 def statements(spec, workdir):
+    """name -> hash of (the statement + the types/values of every `Rio.*` definition reachable from it, never through proofs);
+    computed inside Lean on the elaborated terms (tools/PinTemplate.lean), so redefining `ChunkInvariant` or `Inv` changes the
+    pin of every theorem stated with it."""
     os.makedirs(workdir, exist_ok=True)
     f = os.path.join(workdir, "Pins.lean")
     mods = [spec["lean_module"]] + list(spec.get("extra_modules", []))
+    tmpl = open(os.path.join(V, "tools", "PinTemplate.lean")).read()
     with open(f, "w") as fh:
         for m in mods:
             fh.write(f"import {m}\n")
-        fh.write("set_option pp.width 1000000\n")
-        for t in spec["theorems"]:
-            fh.write(f'#eval IO.println "@@PIN {t}"\n#check @{t}\n')
+        fh.write(tmpl.replace("import Lean\n", "", 1) if False else "")
+    # imports must come first: write imports, then the template body (without its own `import Lean`, which core provides)
+    body = tmpl.split("\n", 1)[1]
+    with open(f, "w") as fh:
+        fh.write("import Lean\n")
+        for m in mods:
+            fh.write(f"import {m}\n")
+        fh.write(body + "\n")
+        names = spec["theorems"]
+        for k in range(0, len(names), 40):
+            fh.write("#pins " + " ".join(names[k:k + 40]) + "\n")
     out = subprocess.run(["lake", "env", "lean", f], cwd=LEAN, stdout=subprocess.PIPE, stderr=subprocess.STDOUT).stdout.decode("utf-8", "replace")
     res = {}
-    parts = out.split("@@PIN ")
-    for part in parts[1:]:
-        name, _, rest = part.partition("\n")
-        text = re.sub(r"\s+", " ", rest.strip())
-        if text and "error" not in text[:40]:
-            res[name.strip()] = hashlib.sha1(text.encode()).hexdigest()[:16]
+    for m in re.finditer(r"@@PIN (\S+) (\S+)", out):
+        if m.group(2) != "MISSING":
+            res[m.group(1)] = m.group(2)
+    if not res:
+        sys.stderr.write(out[-1500:])
     return res
+
+
+def src_hash(spec):
+    """sha1 over the Lean source files (inside the package) the theorem modules transitively import: if it equals the value
+    recorded with the pins, the statements cannot have changed and the Lean run is skipped."""
+    seen, todo = {}, [spec["lean_module"]] + list(spec.get("extra_modules", []))
+    while todo:
+        m = todo.pop()
+        if m in seen:
+            continue
+        path = os.path.join(LEAN, *m.split(".")) + ".lean"
+        if not os.path.exists(path):
+            continue
+        src = open(path).read()
+        seen[m] = src
+        for imp in re.findall(r"^import\s+([\w.]+)", src, re.M):
+            if imp.startswith("RioModel") and imp != "RioModel.Generated.Consts":
+                todo.append(imp)
+    h = hashlib.sha1()
+    for m in sorted(seen):
+        h.update(m.encode()); h.update(seen[m].encode())
+    return h.hexdigest()[:20]
 
 
 def main():
@@ -43,6 +76,8 @@ def main():
             spec = json.load(open(os.path.join(V, "props", pid + ".json")))
             st = statements(spec, os.path.join(V, ".work", "pins." + pid))
             missing = [t for t in spec["theorems"] if t not in st]
+            st["_src"] = src_hash(spec)
+            st["_names"] = sorted(spec["theorems"])
             pins[pid] = st
             print(pid, len(st), "pinned", ("MISSING " + ", ".join(missing[:5])) if missing else "")
         json.dump(pins, open(PINS, "w"), indent=0, sort_keys=True)
@@ -52,9 +87,16 @@ def main():
     if pid not in pins:
         print("no pins recorded for " + pid + " (not an error)")
         return 0
+    if pins[pid].get("_src") == src_hash(spec) and pins[pid].get("_names") == sorted(spec["theorems"]):
+        print("sources and theorem list unchanged since the pins were recorded")
+        return 0
     st = statements(spec, os.path.join(os.environ.get("RIO_OUT", V), ".work", "pins." + pid + "." + str(os.getpid())))
     bad = [t for t in spec["theorems"] if t in pins[pid] and st.get(t) != pins[pid][t]]
     new = [t for t in spec["theorems"] if t not in pins[pid]]
+    gone = [t for t in pins[pid] if t not in spec["theorems"] and not t.startswith("_")]
+    if gone:
+        print("REMOVED from the theorem list since the pins were recorded: " + ", ".join(gone[:20]))
+        bad = bad + gone
     if bad:
         print("STATEMENT CHANGED (pinned hash differs): " + ", ".join(bad[:20]))
     if new:
